@@ -582,10 +582,11 @@ def main():
     c.floor("base_with_array_variables", 300 if thorough else 60)
     # references spelled through variables
     c.floor("base_with_variable_spelled_references", 300 if thorough else 50)
-    c.floor("base_loaded_for_a_non_default_platform", 100 if thorough else 15)
+    c.floor("base_loaded_for_a_non_default_platform", 100 if thorough else 10)
     c.floor("variable_spelled_reference_sites", 500 if thorough else 70)
-    for kind in ("back-edge-through-variable", "self-reference-through-variable", "rename-reference-through-variable"):
+    for kind in ("back-edge-through-variable", "self-reference-through-variable"):
         c.floor("mutant_" + kind, 1000 if thorough else 100)
+    c.floor("mutant_rename-reference-through-variable", 1000 if thorough else 80)
     for kind in ("rename-reference-in-variable", "remove-reference-variable"):
         c.floor("mutant_" + kind, 400 if thorough else 50)
     c.floor("mutant_fault_at_variable_spelled_reference_file_api", 2000 if thorough else 300)
